@@ -6,7 +6,7 @@ from symtrace import engine as E, harness as H, oblig as O
 from . import catalogue as CAT
 from . import common as C
 from .catjob import lookup, Job
-from .c01 import is_heavy
+from .c01 import is_heavy, is_very_heavy
 
 PID = "C04"
 
@@ -26,6 +26,8 @@ def jobs(tier):
                 modes.append(dict(guard=("nest", 2)))
             for m in modes:
                 if heavy and (m.get("guard") is not None or m.get("ignore")) and n > 4:
+                    continue
+                if is_very_heavy(e) and tier == "quick" and (m.get("guard") is not None or m.get("ignore")):
                     continue
                 cfg = dict(n=n, r=2, bound=bound, track_all=True)
                 cfg.update(m)
